@@ -288,7 +288,7 @@ EntOf(rec, field, cls) ==
 \* the name table's header, the first header of every other role, every content record
 KeyRec(rec) == Tier = "thorough" \/ rec.kind \notin {"shdr", "phdr"} \/ rec.idx = 0
 \* `pair`: the reduced class set used when faults are composed
-PairClass(c) == c \in {"zero", "m32", "b63"}
+PairClass(c) == c \in {"zero", "m32", "b63"} \/ (Tier = "thorough" /\ c \in {"entm1", "fsize"})
 \* group of a field for composition: fields of one group are combined with each other
 CtorFields == {"e_shoff", "e_shentsize", "e_shnum", "e_shstrndx", "e_phoff", "e_phentsize", "e_phnum"}
 GroupOf(rec, field) ==
